@@ -62,6 +62,22 @@ LoadAllowed(ev) ==
   /\ Eq(ev.got2, ev.got)                                        \* ... and no neighbouring ones
 
 (***************************************************************************)
+(* C07 whole arrays (incl. multi-dimensional): ev = [size (guest bytes of  *)
+(*   one scalar), signed, addr, n scalars, vals (Wide, row-major), bytes   *)
+(*   (n*size bytes of the object afterwards / as found), changed, out, got]*)
+(***************************************************************************)
+Slice(b, i, sz) == SubSeq(b, (i - 1) * sz + 1, i * sz)
+ArrStoreAllowed(ev) ==
+  /\ ev.out = "ok"                                              \* every value used fits the guest type
+  /\ ToSet(ev.changed) \subseteq ev.addr..(ev.addr + ev.n * ev.size - 1)
+  /\ Len(ev.bytes) = ev.n * ev.size /\ Len(ev.vals) = ev.n
+  /\ \A i \in 1..ev.n : Eq(Decode(Slice(ev.bytes, i, ev.size), ev.signed), ev.vals[i])   \* no element skipped
+ArrLoadAllowed(ev) ==
+  /\ ev.out = "ok"
+  /\ Len(ev.got) = ev.n
+  /\ \A i \in 1..ev.n : Eq(ev.got[i], Decode(Slice(ev.bytes, i, ev.size), ev.signed))
+
+(***************************************************************************)
 (* C04 / C03 pointer cells: ev = [rep (Wide: guest representation found in *)
 (*   or written to the cell), region size, own (sandbox the cell lives     *)
 (*   in), cls of the application address obtained: "null" | "in" (with     *)
